@@ -1,0 +1,70 @@
+//go:build verif
+
+package virtual
+
+import (
+	"reflect"
+)
+
+// VerifLeafLocksAreFree reports whether the mutexes behind a leaf can
+// be acquired right now: the lock of the pool-backed file and, if the
+// leaf was created through the NFS handle allocator, the lock of the
+// handle pool that protects its link count. It only exists in builds
+// with the "verif" tag and is used by the verification harness to check
+// that no call leaves a lock behind. It does not modify any state.
+//
+// Wrappers created by FUSEStatefulHandleAllocator and
+// NFSStatefulHandleAllocator are unwrapped, as are wrappers of the
+// harness that embed a LinkableLeaf. The second return value is false
+// if no lock could be examined, because the leaf is of another type.
+func VerifLeafLocksAreFree(leaf Leaf) (free, ok bool) {
+	free = true
+	var current any = leaf
+	for depth := 0; depth < 8; depth++ {
+		switch l := current.(type) {
+		case *fuseStatefulLinkableLeaf:
+			current = l.LinkableLeaf
+		case *nfsStatefulLinkableLeaf:
+			if l.pool.lock.TryLock() {
+				l.pool.lock.Unlock()
+			} else {
+				free = false
+			}
+			ok = true
+			current = l.LinkableLeaf
+		case *fileBackedFile:
+			if l.lock.TryLock() {
+				l.lock.Unlock()
+			} else {
+				free = false
+			}
+			return free, true
+		default:
+			inner, found := verifEmbeddedLinkableLeaf(current)
+			if !found {
+				return free, ok
+			}
+			current = inner
+		}
+	}
+	return free, ok
+}
+
+// verifEmbeddedLinkableLeaf returns the value of an exported embedded
+// field named LinkableLeaf, which is how instrumentation wrappers of
+// the harness are declared.
+func verifEmbeddedLinkableLeaf(v any) (LinkableLeaf, bool) {
+	rv := reflect.ValueOf(v)
+	if rv.Kind() == reflect.Pointer && !rv.IsNil() {
+		rv = rv.Elem()
+	}
+	if rv.Kind() != reflect.Struct {
+		return nil, false
+	}
+	field := rv.FieldByName("LinkableLeaf")
+	if !field.IsValid() || !field.CanInterface() || field.IsNil() {
+		return nil, false
+	}
+	inner, ok := field.Interface().(LinkableLeaf)
+	return inner, ok
+}
